@@ -206,7 +206,9 @@ Definition aggressively_to_num (s : str) : res f64 :=
   | VFloat f => Ok f
   | VInt i => Ok (f_of_Z i)
   | _ =>
-      let negative := head_is 45%N (trim_start s) in
+      (* the sign is the `-` found before the first digit or dot (fixes bda0777, 80926c1) *)
+      let negative := match find (fun c => is_numeric_char c || (c =? 46)%N || (c =? 45)%N) s with
+                      | Some c => (c =? 45)%N | None => false end in
       let digits := filter (fun c => is_numeric_char c || (c =? 46)%N) s in
       match from_string (if negative then 45%N :: digits else digits) with
       | VFloat f => Ok f
@@ -223,6 +225,7 @@ Definition to_f64 (v : value) : res f64 :=
   | VInt i => Ok (f_of_Z i)
   | VFloat f => Ok f
   | VStr s => aggressively_to_num s
+  | VDate ns => Ok (f_of_Z (floor_div ns 1000000))   (* timestamp_millis: what num(date) returns (fix 4e663c3) *)
   | _ => Err
   end.
 
@@ -248,7 +251,11 @@ Definition to_usize (v : value) : res Z :=
 
 (** ** arithmetic *)
 
+Definition is_date (v : value) : bool := match v with VDate _ => true | _ => false end.
+
+(** arithmetic on dates is what the typed arms of + and - define: here a date is refused (fixes 9840533, 4e663c3) *)
 Definition binary_op (op : f64 -> f64 -> f64) (l r : value) : res value :=
+  if is_date l || is_date r then Err else
   match to_f64 l, to_f64 r with
   | Ok a, Ok b => Ok (from_float (op a b))
   | Unm, _ | _, Unm => Unm
@@ -314,9 +321,13 @@ Definition vadd (l r : value) : res value := vadd_typed (int_text l) (int_text r
 Definition vsub (l r : value) : res value := vsub_typed (int_text l) (int_text r).
 Definition vmul (l r : value) : res value := vmul_typed (int_text l) (int_text r).
 
-Definition vdiv (l r : value) : res value :=
+Definition vdiv_typed (l r : value) : res value :=
   match l, r with
   | VDur a, VInt b =>
       if in_i32 b && negb (b =? 0) then Ok (VDur (Z.quot a b)) else Err
   | _, _ => binary_op fdiv l r
   end.
+
+(** the divisor goes through [int_text] like the operands of + - * (fix 46e1115): text holding an integer divides a
+    duration like that integer; every other division reaches [binary_op] either way *)
+Definition vdiv (l r : value) : res value := vdiv_typed l (int_text r).
